@@ -74,6 +74,10 @@ def payload_variants(rng, n, deep):
     return out
 
 
+# AA55 answers at the limits of the one-byte length field: no payload, one byte, and payloads whose byte sum does not fit 16 bits (the checksum wraps)
+AA55_BOUNDARY_PAYLOADS = [b'', b'\x00', b'\xff', b'\xff' * 254, b'\xff' * 255, b'\xff' * 200 + b'\x00' * 55, bytes([0xfe] * 255)]
+
+
 def valid_frame(cmd: Cmd, payload: bytes = None, addr=None, tx=0x0102) -> bytes:
     s = cmd.spec
     a = s.get('addr', 0xf7) if addr is None else addr
